@@ -170,6 +170,54 @@ Proof.
     rewrite cmp_field_dir. cbn [cmp_asc bof]. unfold dir. destruct (descending o); reflexivity.
 Qed.
 
+(* ------------------------------------------------------------------ interval tuples *)
+Definition sof (v : value) : list value := match v with VStruct vs => vs | _ => [] end.
+
+Lemma encode_tuple_length ws zs : length (encode_tuple ws zs) = sum_widths ws.
+Proof.
+  revert zs. induction ws as [|w ws IH]; intros zs; [reflexivity|].
+  cbn [encode_tuple sum_widths fold_right]. rewrite app_length, encode_signed_length, IH. reflexivity.
+Qed.
+
+Lemma encode_tuple_wf ws zs : wf_widths ws -> wf_bytes (encode_tuple ws zs).
+Proof.
+  revert zs. induction ws as [|w ws IH]; intros zs Hw; [constructor|].
+  cbn [encode_tuple wf_widths] in *. apply Forall_app; split; [apply encode_signed_wf; tauto | apply IH; tauto].
+Qed.
+
+Lemma tuple_order ws : wf_widths ws -> forall a b, wt_tuple ws a -> wt_tuple ws b ->
+  lex (encode_tuple ws a) (encode_tuple ws b) = tuple_cmp a b.
+Proof.
+  induction ws as [|w ws IH]; intros Hw a b Wa Wb.
+  - destruct a, b; try contradiction. reflexivity.
+  - destruct a as [|[|x| | |] a], b as [|[|y| | |] b]; cbn [wt_tuple] in Wa, Wb; try contradiction.
+    cbn [wf_widths] in Hw. cbn [encode_tuple tuple_cmp hd tl vint].
+    rewrite lex_app_same_len by (now rewrite !encode_signed_length).
+    rewrite signed_order; [| tauto | unfold in_signed; rewrite half_Z by tauto; tauto | unfold in_signed; rewrite half_Z by tauto; tauto].
+    destruct (x ?= y)%Z; try reflexivity. apply IH; tauto.
+Qed.
+
+Theorem iv_strong ws o : wf_widths ws -> strong (wt (TIv ws)) (enc (TIv ws) o) (cmp_field (TIv ws) o).
+Proof.
+  intros Hw.
+  apply (field_strong_from_valid (TIv ws) o
+           (fun v => exists zs, v = VStruct zs /\ wt_tuple ws zs)
+           (fun v => 1 :: inv_if (descending o) (encode_tuple ws (sof v)))
+           (fun a b => dir (descending o) (tuple_cmp (sof a) (sof b))) (repeat 0 (sum_widths ws)) I).
+  - apply (strong_prefix _ _ _ [1]).
+    apply (strong_sub (fun v => wt_tuple ws (sof v))); [intros v (zs & -> & H); exact H|].
+    apply (strong_inv_if _ (fun v => encode_tuple ws (sof v)) (fun a b => tuple_cmp (sof a) (sof b))).
+    + intros a _. now apply encode_tuple_wf.
+    + apply (strong_map sof (wt_tuple ws) (encode_tuple ws) tuple_cmp).
+      apply strong_of_same_len; [intros; now rewrite !encode_tuple_length | now apply tuple_order].
+  - intros a _. apply one_head.
+  - intros v Wv Nv. destruct v; try congruence; try (cbn [wt] in Wv; contradiction).
+    rewrite wt_iv in Wv. split; [eexists; split; [reflexivity|exact Wv]|]. reflexivity.
+  - reflexivity.
+  - intros a b Wa Wb Na Nb. destruct a, b; try congruence; try (cbn [wt] in Wa, Wb; contradiction).
+    rewrite cmp_field_dir, !cmp_asc_iv. cbn [sof]. unfold dir. destruct (descending o); reflexivity.
+Qed.
+
 (* ------------------------------------------------------------------ variable-length leaf *)
 Lemma inv_if_head d (l : list N) : wf_bytes l -> (exists h tl, l = h :: tl /\ 0 < h < 255) ->
   exists h tl, inv_if d l = h :: tl /\ 0 < h < 255.
@@ -247,7 +295,7 @@ Qed.
 
 Theorem enc_wf : forall t, wf_type t -> forall o v, wt t v -> wf_bytes (enc t o v).
 Proof.
-  induction t as [w|w| |w|n| |fs IH|c IH|c n IH|c IH] using ftype_ind'; intros Wt o v Wv.
+  induction t as [w|w| |w|n| |fs IH|c IH|c n IH|c IH|ws] using ftype_ind'; intros Wt o v Wv.
   - cbn [enc]. apply encode_fixed_wf. intros b E. destruct v; try discriminate. injection E as <-. now apply encode_signed_wf.
   - cbn [enc]. apply encode_fixed_wf. intros b E. destruct v; try discriminate. injection E as <-. apply encode_unsigned_wf.
   - cbn [enc]. apply encode_fixed_wf. intros b E. destruct v; try discriminate. injection E as <-. apply encode_bool_wf.
@@ -276,4 +324,5 @@ Proof.
     + rewrite wt_fsl in Wv. destruct Wv as [_ Wv]. rewrite wt_all_Forall, Forall_forall in Wv.
       cbn [enc]. constructor; [unfold wf_byte; lia|]. apply wf_flat_map. intros a Ha. apply IH; [exact Wt | now apply Wv].
   - cbn [wf_type wt] in *. cbn [enc]. apply encode_one_wf. intros b E. injection E as <-. now apply IH.
+  - rewrite wf_type_iv in Wt. cbn [enc]. apply encode_fixed_wf. intros b E. destruct v; try discriminate. injection E as <-. now apply encode_tuple_wf.
 Qed.
